@@ -44,6 +44,7 @@ def batch_package():
         ("fixedVecEnum", V(N("BtEnum"), 2)),
         ("fixedVecDate", V(P("date"), 2)),
         ("fixedVecFloat", V(P("float32"), 3)),
+        ("dynArrF", A(P("float32"), None)),
         ("mapOfMap", M(P("string"), M(P("string"), P("int32")))),
         # a bare type parameter bound to a nullable type: presence is only known after instantiation
         ("genOpt", N("BtGen", (Opt(P("int32")),))),
@@ -187,6 +188,18 @@ def run(ctx):
                         ctx.count("py->cpp.cap%d" % cap)
                         rt.judge(ctx, m, proto, vals, res.out, r2, "cpp-plain", "bin", "%s python(%s) output read by C++ capacity %d" % (proto.name, mode, cap), {"mode": mode})
                 ctx.case((proto.name, "py", mode, n))
+    # items that are arrays of fixed-width elements, in a stream longer than the reader's 64 KiB buffer, consumed item by item and kept in a list
+    from vlib.refcodec import f32
+    proto = pkg.find("BtDynArrF")
+    big = [((1024,), [f32(float(i * 1024 + j)) for j in range(1024)]) for i in range(70)]
+    vals = [7, big, "tail"]
+    data = c.encode_stream(proto, m.schema(proto.name), vals, partitions={1: [5] * 14})
+    for ep in (rt.PyEndpoint(m, mode="list"), rt.PyEndpoint(m), rt.PyEndpoint(m, mode="itemwise"), rt.CppEndpoint(m, "plain", bufs=[8])):
+        res = ep.copy(proto.name, "bin", "bin", data)
+        ctx.ev()
+        ctx.count("big-array-items." + ep.name)
+        rt.judge(ctx, m, proto, vals, data, res, ep.name, "bin", "70 float32[1024] items (%d bytes) read by %s" % (len(data), ep.name), {"big_array_items": True})
+    ctx.case(("big-array-items", len(data)))
     ctx.sample({"protocols": [p.name for p in pkg.protocols()], "capacities": CAPS, "jobs": len(jobs)})
     ctx.sample({"example_partitions_n4": partitions(4)})
     m.close()
